@@ -42,7 +42,11 @@ class Ctx:
             self.cov["checker_cmd"] = (f"cd coq && make {target} && coqc <flags> {props_file}  "
                                        f"(Print Assumptions under every theorem of {props_file})")
             if not ok:
-                self.broken.append(("proof:" + props_file, common.first_error(log)))
+                unsupported = [l for l in msg.splitlines() if l.startswith("TRANSLATOR-UNSUPPORTED")]
+                detail = common.first_error(log)
+                if unsupported and "Translator_unsupported" in log:
+                    detail = "; ".join(unsupported) + " :: " + detail
+                self.broken.append(("proof:" + props_file, detail))
                 return False
             rc, out = common.coqc(props_file)
         if rc != 0:
